@@ -82,6 +82,7 @@ func OpenNode(dir string, opts *Opts, tables []TableDef) (*Node, error) {
 		Dir:                       dir,
 		VirtualTime:               !opts.RealTime,
 		IterationCoalesceInterval: co,
+		IterationConcurrency:      8, // held scans (C18) occupy iteration workers
 		MaxMemoryRatio:            opts.MaxMemoryRatio,
 		Panic: func(e interface{}) {
 			n.Panics = append(n.Panics, fmt.Sprint(e))
@@ -150,7 +151,14 @@ func (n *Node) Probe(sql string, includeMem bool, timeout time.Duration) ([]Row,
 // ProbeRaw is Probe with the fields named in raw reported as plain values
 // [key, period, field, value] instead of being decoded.
 func (n *Node) ProbeRaw(sql string, includeMem bool, timeout time.Duration, raw map[string]bool) ([]Row, [][]interface{}, []string, error) {
+	return n.ProbeHook(sql, includeMem, timeout, raw, nil)
+}
+
+// ProbeHook is ProbeRaw with onRow called after every delivered flat row
+// (with the number of rows delivered so far); it may block to hold the scan.
+func (n *Node) ProbeHook(sql string, includeMem bool, timeout time.Duration, raw map[string]bool, onRow func(n int)) ([]Row, [][]interface{}, []string, error) {
 	var vals [][]interface{}
+	delivered := 0
 	src, err := n.DB.Query(sql, false, nil, includeMem)
 	if err != nil {
 		return nil, nil, nil, err
@@ -160,41 +168,57 @@ func (n *Node) ProbeRaw(sql string, includeMem bool, timeout time.Duration, raw 
 	var names []string
 	var rows []Row
 	tick := n.Opts.Tick()
-	_, err = src.Iterate(ctx, func(f core.Fields) error {
-		names = f.Names()
-		return nil
-	}, func(row *core.FlatRow) (bool, error) {
-		key := KeyString(bytemap.ByteMap(row.Key).AsMap())
-		d := time.Unix(0, row.TS).Sub(Epoch)
-		var per interface{} = int64(d / tick)
-		if d%tick != 0 {
-			per = fmt.Sprintf("offgrid:%d", row.TS)
-		}
-		for i, v := range row.Values {
-			f := fieldID(names[i])
-			if raw[f] {
-				if v != 0 {
-					vals = append(vals, []interface{}{key, per, f, v})
+	iterate := func() error {
+		_, err := src.Iterate(ctx, func(f core.Fields) error {
+			names = f.Names()
+			return nil
+		}, func(row *core.FlatRow) (bool, error) {
+			key := KeyString(bytemap.ByteMap(row.Key).AsMap())
+			d := time.Unix(0, row.TS).Sub(Epoch)
+			var per interface{} = int64(d / tick)
+			if d%tick != 0 {
+				per = fmt.Sprintf("offgrid:%d", row.TS)
+			}
+			for i, v := range row.Values {
+				f := fieldID(names[i])
+				if raw[f] {
+					if v != 0 {
+						vals = append(vals, []interface{}{key, per, f, v})
+					}
+					continue
 				}
-				continue
-			}
-			if f == "p" {
-				if v != 0 {
-					rows = append(rows, Row{key, per, f, 0, countOf(v)})
+				if f == "p" {
+					if v != 0 {
+						rows = append(rows, Row{key, per, f, 0, countOf(v)})
+					}
+					continue
 				}
-				continue
+				ids, counts, ok := Digits(v)
+				if !ok {
+					rows = append(rows, Row{key, per, f, -1, fmt.Sprintf("undecodable:%v", v)})
+					continue
+				}
+				for j := range ids {
+					rows = append(rows, Row{key, per, f, ids[j], counts[j]})
+				}
 			}
-			ids, counts, ok := Digits(v)
-			if !ok {
-				rows = append(rows, Row{key, per, f, -1, fmt.Sprintf("undecodable:%v", v)})
-				continue
+			delivered++
+			if onRow != nil {
+				onRow(delivered)
 			}
-			for j := range ids {
-				rows = append(rows, Row{key, per, f, ids[j], counts[j]})
-			}
-		}
-		return true, nil
-	})
+			return true, nil
+		})
+		return err
+	}
+	// a scan can also hang before it starts (all iteration workers busy): the
+	// context does not cover that
+	errCh := make(chan error, 1)
+	go func() { errCh <- iterate() }()
+	select {
+	case err = <-errCh:
+	case <-time.After(timeout + 2*time.Second):
+		return nil, nil, nil, fmt.Errorf("query did not return within %v", timeout+2*time.Second)
+	}
 	sort.Slice(rows, func(i, j int) bool { return fmt.Sprint(rows[i]) < fmt.Sprint(rows[j]) })
 	return rows, vals, names, err
 }
